@@ -38,7 +38,7 @@ UNIT = Unit(
         Fn(S, "pre_tip911", impl="StakeSet", home="C07", implicit_props=("C09", "C07", "C13"), **ss_pre_tip911(),
            uses="novasmt::axiom_tree_total",
            rewrites=[("SUB", ".get_tree([0u8; 32])", ".get_tree(zero_root())"),
-                     ("SUB", "for (k, v) in self.stakes.iter() {", """let __es = self.stakes.iter(); let ghost m = self.stakes@; let ghost ks = Seq::new(__es@.len(), |i: int| *__es@[i].0);
+                     ("SUBRE", r"for \(k, v\) in self\.stakes\.iter\(\)([^{]*?)\s*\{", """let __es = self.stakes.iter()${1}; let ghost m = self.stakes@; let ghost ks = Seq::new(__es@.len(), |i: int| *__es@[i].0);
         proof { assert(tree@ =~= stakes_raw_upto(m, ks, 0)); }
         for (k, v) in __es {""")],
            injects=[Inject("before_tail", "proof { lemma_stakes_raw_all(m, ks); }")],
